@@ -366,33 +366,46 @@ type setResult struct {
 
 // loadSet writes the six files and runs every loader the server runs on them.
 func loadSet(dir string, docs [nFiles][]byte) setResult {
-	var r setResult
 	var paths [nFiles]string
 	for i := range docs {
 		paths[i] = writeFile(dir, fileNames[i], docs[i])
 	}
-	for i := range docs {
+	return runLoaders(paths, -1)
+}
+
+// runLoaders runs the per-file loaders (all, or only file `only`) and the two combined loaders
+// (only the one that reads file `only`, when given).
+func runLoaders(paths [nFiles]string, only int) setResult {
+	var r setResult
+	for i := range paths {
 		i := i
+		if only >= 0 && i != only {
+			continue
+		}
 		if pi := try(func() { r.single[i] = loadOne(i, paths[i]) }); pi != nil {
 			r.panicked, r.where = pi, loaderNames[i]
 			return r
 		}
 	}
-	if pi := try(func() {
-		r.sdc, r.sdcErr = bfe_route.LoadServerDataConf(paths[fHost], paths[fVip], paths[fRoute], paths[fCluster])
-	}); pi != nil {
-		r.panicked, r.where = pi, "LoadServerDataConf"
-		return r
-	}
-	if pi := try(func() {
-		bt := bfe_balance.NewBalTable(nil)
-		r.balErr = bt.Init(paths[fGslb], paths[fCTable])
-		if r.balErr == nil && r.sdc != nil {
-			bt.SetGslbBasic(r.sdc.ClusterTable)
-			bt.SetSlowStart(r.sdc.ClusterTable)
+	if only < 0 || only <= fCluster {
+		if pi := try(func() {
+			r.sdc, r.sdcErr = bfe_route.LoadServerDataConf(paths[fHost], paths[fVip], paths[fRoute], paths[fCluster])
+		}); pi != nil {
+			r.panicked, r.where = pi, "LoadServerDataConf"
+			return r
 		}
-	}); pi != nil {
-		r.panicked, r.where = pi, "BalTable.Init"
+	}
+	if only < 0 || only > fCluster {
+		if pi := try(func() {
+			bt := bfe_balance.NewBalTable(nil)
+			r.balErr = bt.Init(paths[fGslb], paths[fCTable])
+			if r.balErr == nil && r.sdc != nil {
+				bt.SetGslbBasic(r.sdc.ClusterTable)
+				bt.SetSlowStart(r.sdc.ClusterTable)
+			}
+		}); pi != nil {
+			r.panicked, r.where = pi, "BalTable.Init"
+		}
 	}
 	return r
 }
@@ -745,6 +758,7 @@ func c13FixedDocs(t *testing.T, rec *ev.Rec, dir string) {
 var fuzzDirOnce sync.Once
 var fuzzDir string
 var fuzzBase [nFiles][]byte
+var fuzzPaths [nFiles]string
 
 func fuzzSetup() {
 	fuzzDirOnce.Do(func() {
@@ -764,6 +778,9 @@ func fuzzSetup() {
 		d.Docs[fGslb] = obj{{"Clusters", obj{{"c", obj{{"GSLB_BLACKHOLE", 0}, {"s", 100}}}}}, {"Hostname", "h"}, {"Ts", "1"}}
 		d.Docs[fCTable] = obj{{"Config", obj{{"c", obj{{"s", []any{obj{{"Addr", "10.0.0.1"}, {"Name", "n"}, {"Port", 80}, {"Weight", 1}}}}}}}}, {"Version", "1"}}
 		fuzzBase = d.bytes()
+		for i, b := range fuzzBase {
+			fuzzPaths[i] = writeFile(fuzzDir, fileNames[i], b)
+		}
 	})
 }
 
@@ -779,9 +796,9 @@ func FuzzC13(f *testing.F) {
 	f.Add(byte(fRoute), []byte(`{"Version":"1","BasicRule":{"p":[{"Hostname":["*"],"Path":["*"],"ClusterName":"ADVANCED_MODE"}]}}`))
 	f.Fuzz(func(t *testing.T, which byte, data []byte) {
 		i := int(which) % nFiles
-		docs := fuzzBase
-		docs[i] = data
-		r := loadSet(fuzzDir, docs)
+		paths := fuzzPaths
+		paths[i] = writeFile(fuzzDir, "fuzzed-"+fileNames[i], data)
+		r := runLoaders(paths, i)
 		rec.Case("", false, "fuzz-exec")
 		if r.panicked != nil {
 			w := map[string]any{"file": fileNames[i], "content": string(data)}
